@@ -682,8 +682,8 @@ static JanetSlot janetc_if(JanetFopts opts, int32_t argn, const Janet *argv) {
 
     /* Write jumps - only add jump lengths if jump actually emitted */
     labeld = janet_v_count(c->buffer);
-    c->buffer[labeljr] |= (labelr - labeljr) << 16;
-    if (!tail) c->buffer[labeljd] |= (labeld - labeljd) << 8;
+    janetc_patchjump_s(c, labeljr, labelr);
+    if (!tail) janetc_patchjump_l(c, labeljd, labeld);
 
     if (tail) target.flags |= JANET_SLOT_RETURNED;
     return target;
@@ -923,13 +923,14 @@ static JanetSlot janetc_while(JanetFopts opts, int32_t argn, const Janet *argv) 
 
     /* Calculate jumps */
     labeld = janet_v_count(c->buffer);
-    if (!infinite) c->buffer[labelc] |= (uint32_t)(labeld - labelc) << 16;
-    c->buffer[labeljt] |= (uint32_t)(labelwt - labeljt) << 8;
+    if (!infinite) janetc_patchjump_s(c, labelc, labeld);
+    janetc_patchjump_l(c, labeljt, labelwt);
 
     /* Calculate breaks */
     for (int32_t i = labelwt; i < labeld; i++) {
         if (c->buffer[i] == (0x80 | JOP_JUMP)) {
-            c->buffer[i] = JOP_JUMP | ((labeld - i) << 8);
+            c->buffer[i] = JOP_JUMP;
+            janetc_patchjump_l(c, i, labeld);
         }
     }
 
